@@ -134,7 +134,8 @@ def axis_bounds(ctx, F):
     helper_ok = None
     if b is not None:
         R = Resolver(b)
-        problems = _row_table(b, R, P('idx'), P('axis'), P('lower'), P('upper'), P('mat'), P('bias'))
+        an = b.arg_names()   # by position (private helper: its parameter names are free to change): (first row, mat, bias, axis, lower, upper)
+        problems = _row_table(b, R, P(an[0]), P(an[3]), P(an[4]), P(an[5]), P(an[1]), P(an[2])) if len(an) == 6 else ['unexpected parameter list']
         helper_ok = not problems
         if problems:
             for p_ in problems:
